@@ -1,6 +1,6 @@
 (** C11 - from / try_from / map / validate see only good values, once, in order. *)
 From Deserr Require Import Base Pointer Kinds Value Prog Utf8 Scalars Types Deser Monitors.
-From Deserr.proofs Require Import MiscProofs.
+From Deserr.proofs Require Import MiscProofs RefineFields C11More.
 
 (** container-level `from`: the function is invoked exactly once, right after its intermediate
     value deserialized, with that value; when the intermediate value fails it is not invoked
@@ -40,6 +40,72 @@ Theorem c11_validate : forall script a val l o s,
   end.
 Proof. exact validate_run. Qed.
 
+(** field level, every script: once the field's value has deserialized (with the field's own
+    error type), its `from` / `try_from` function runs exactly once, right then, on that value;
+    a failing `try_from` hands its error first to the field's error type, then to the container's
+    at the field's location, and the field is marked failed; both answers must be Continue for
+    the struct to go on *)
+Theorem c11_field_stage_ok : forall script a f i k v l acc sts s x s1,
+  run script (rf_run f (falg_of a f) v (Key k l)) s = (ROk x, s1) ->
+  run script (field_entry a f i k v l acc sts) s
+  = match rf_from f with
+    | FFNone => (SGo acc (set_nth i (FSome x) sts), s1)
+    | FFFrom fn => (SGo acc (set_nth i (FSome (OFn fn x)) sts), s1 ++ [CUser fn [AOut x]])
+    | FFTry fn =>
+      if ufail x then
+        let s2 := s1 ++ [CUser fn [AOut x]] in
+        let i1 := N.of_nat (List.length s2) in
+        let s3 := s2 ++ [CMergeU (falg_of a f) None (fn, [AOut x]) (Key k l)] in
+        let i2 := N.of_nat (List.length s3) in
+        let s4 := s3 ++ [CMerge a acc (falg_of a f) i1 (Key k l)] in
+        (if script i1 && script i2 then SGo (Some i2) (set_nth i FErr sts) else SStop (RErr i2), s4)
+      else (SGo acc (set_nth i (FSome (OFn fn x)) sts), s1 ++ [CUser fn [AOut x]])
+    end.
+Proof. exact field_entry_ok. Qed.
+
+(** ... and when the field's value did not deserialize no function runs at all: the error is
+    handed over to the container's error type at the field's location *)
+Theorem c11_field_stage_err : forall script a f i k v l acc sts s e s1,
+  run script (rf_run f (falg_of a f) v (Key k l)) s = (RErr e, s1) ->
+  run script (field_entry a f i k v l acc sts) s
+  = (let i' := N.of_nat (List.length s1) in
+     if script i' then SGo (Some i') (set_nth i FErr sts) else SStop (RErr i'),
+     s1 ++ [CMerge a acc (falg_of a f) e (Key k l)]).
+Proof. exact field_entry_err. Qed.
+
+(** construction, every script: the `map` functions run once each, in field order with the
+    skipped fields last, on the final values; the struct is built from their results *)
+Theorem c11_maps_at_construction : forall script (vals : list (string * out * option N)) outs_rev s,
+  run script (construct (map (fun it => (fst (fst it), FSome (snd (fst it)), snd it)) vals) outs_rev) s
+  = (inl (rev outs_rev ++ map built_field vals), (s ++ flat_map built_calls vals)%list).
+Proof. exact construct_any_script. Qed.
+
+Check c11_field_stage_ok : forall script a f i k v l acc sts s x s1,
+  run script (rf_run f (falg_of a f) v (Key k l)) s = (ROk x, s1) ->
+  run script (field_entry a f i k v l acc sts) s
+  = match rf_from f with
+    | FFNone => (SGo acc (set_nth i (FSome x) sts), s1)
+    | FFFrom fn => (SGo acc (set_nth i (FSome (OFn fn x)) sts), s1 ++ [CUser fn [AOut x]])
+    | FFTry fn =>
+      if ufail x then
+        let s2 := s1 ++ [CUser fn [AOut x]] in
+        let i1 := N.of_nat (List.length s2) in
+        let s3 := s2 ++ [CMergeU (falg_of a f) None (fn, [AOut x]) (Key k l)] in
+        let i2 := N.of_nat (List.length s3) in
+        let s4 := s3 ++ [CMerge a acc (falg_of a f) i1 (Key k l)] in
+        (if script i1 && script i2 then SGo (Some i2) (set_nth i FErr sts) else SStop (RErr i2), s4)
+      else (SGo acc (set_nth i (FSome (OFn fn x)) sts), s1 ++ [CUser fn [AOut x]])
+    end.
+Check c11_field_stage_err : forall script a f i k v l acc sts s e s1,
+  run script (rf_run f (falg_of a f) v (Key k l)) s = (RErr e, s1) ->
+  run script (field_entry a f i k v l acc sts) s
+  = (let i' := N.of_nat (List.length s1) in
+     if script i' then SGo (Some i') (set_nth i FErr sts) else SStop (RErr i'),
+     s1 ++ [CMerge a acc (falg_of a f) e (Key k l)]).
+Check c11_maps_at_construction : forall script (vals : list (string * out * option N)) outs_rev s,
+  run script (construct (map (fun it => (fst (fst it), FSome (snd (fst it)), snd it)) vals) outs_rev) s
+  = (inl (rev outs_rev ++ map built_field vals), (s ++ flat_map built_calls vals)%list).
+
 Check c11_from_container : forall script a inter fn val v l s,
   run script (deser (TFrom inter fn val) a v l) s =
   match run script (deser inter a v l) s with
@@ -67,3 +133,6 @@ Check c11_validate : forall script a val l o s,
 Print Assumptions c11_from_container.
 Print Assumptions c11_try_from_container.
 Print Assumptions c11_validate.
+Print Assumptions c11_field_stage_ok.
+Print Assumptions c11_field_stage_err.
+Print Assumptions c11_maps_at_construction.
